@@ -31,6 +31,10 @@ CHECKS = {
  'C17': dict(engine='B+A', technique='symbolic execution of the real predicate code with big integers mapped to z3 Int (polynomial identities and magnitude lemmas decided by z3 NIA); cbmc bit-precise for the mantissa map',
    text='orient3d_exact / insphere_exact equal the sign of the reference determinants for ALL mantissa values (polynomial identity over mathematical integers), change sign under odd and are invariant under even permutations, every intermediate fits the 256/278-bit types; get_mantissa is the exact affine map on [1,2) for every binary64 value.',
    note='Partial: soundness of the floating-point filter (adaptive versions) is an FP error-analysis statement and is outside. Boost big integers are modelled as mathematical integers; width sufficiency is proved separately (E3).', ref='DESIGN.md section 5 C17'),
+
+ 'C12': dict(engine='A', technique='bounded model checking (cbmc/SAT, pointer and deallocation checks) of real constructor/destructor pairs and container operations lowered through LLVM IR',
+   text='Unit-level necessary conditions only: owners of optional components (LiveOutputManager, ...) constructed on storage with arbitrary previous content free only what they allocated, for every option combination; container harnesses of C01/C07/C08 run with bounds and pointer checks. Whole runs are not encodable and are NOT claimed.',
+   note='Partial by construction: exit status and memory safety of complete runs in every mode are outside this technique (whole program, I/O, OpenMP runtime).', ref='DESIGN.md section 5 C12'),
 }
 NA = {
 }
